@@ -472,7 +472,8 @@ MORE = {
            'every point, writes through the secondary refused.',
     'C16': 'The temporary changes a demo storage creates itself as third '
            'changes kind, pack as DB.pack asks for it; a pack must leave '
-           'every current state, a failing pack everything; a blob-capable '
+           'every current state, a failing pack everything, and may take '
+           'answers about older snapshots away but never change them; a blob-capable '
            'base under a fresh implicit / pushed layer with every pair of '
            'blob operations first, and under explicit changes storages that '
            'cannot hold blobs (reads of the base\'s blobs).',
